@@ -17,6 +17,17 @@ pub fn print_child(threads: usize, calls: usize, stream: &str) {
             let stream = stream.clone();
             std::thread::spawn(move || {
                 let mut r = crate::rng::Rng::new(t as u64 * 7919);
+                // every thread first issues prints whose format string has no arguments (a bare newline): whatever such a
+                // call does to per-thread state must not outlive it
+                if stream == "stdout" {
+                    anstream::println!();
+                    writeln!(anstream::stdout()).unwrap();
+                    anstream::print!("\n");
+                } else {
+                    anstream::eprintln!();
+                    writeln!(anstream::stderr()).unwrap();
+                    anstream::eprint!("\n");
+                }
                 for c in 1..=calls {
                     let pad = "x".repeat(r.below(40));
                     let kind = (c + t) % 9;
